@@ -19,7 +19,7 @@ UNIT_SETS = ["logic", "calls", "select", "lits", "strs", "singular"]
 
 def _one(us: str, max_units: int, export_upto: int, name: str, workers: int):
     cfg = (f"SPECIFICATION Spec\nCONSTANT UnitSet = \"{us}\"\nCONSTANT MaxUnits = {max_units}\nCONSTANT ExportAllUpTo = {export_upto}\n"
-           "INVARIANT T15_NoCrash\nINVARIANT T15_Accept\nINVARIANT T15_Reject\nINVARIANT T16\nINVARIANT Export\nCHECK_DEADLOCK FALSE\n")
+           "INVARIANT T15_NoCrash\nINVARIANT T15_Accept\nINVARIANT T15_Reject\nINVARIANT T16\nINVARIANT T2\nINVARIANT Export\nCHECK_DEADLOCK FALSE\n")
     res = core.require_ok(core.run_tlc("MC_Parser", cfg, name=f"{name}_{us}", workers=workers, heap="6g", timeout=5400),
                           f"MC_Parser {us}")
     gens = []
@@ -49,7 +49,7 @@ def unit_texts(tier: str, name: str, sets=UNIT_SETS, deep: bool = False, more=No
     runs = []
     for us, res, g in done:
         gens += g
-        runs.append((f"MC_Parser.tla units={us} n<={max_units}: T15_NoCrash, T15_Accept, T15_Reject, T16", res))
+        runs.append((f"MC_Parser.tla units={us} n<={max_units}: T15_NoCrash, T15_Accept, T15_Reject, T16, T2", res))
     return gens, runs
 
 
